@@ -70,6 +70,11 @@ class Translator:
         return self.trees[module]
 
     def find(self, module, cls, fn) -> ast.FunctionDef:
+        if ">" in fn:                                  # nested function: outer>inner
+            outer, inner = fn.split(">", 1)
+            for m in self.find(module, cls, outer).body:
+                if isinstance(m, ast.FunctionDef) and m.name == inner: return m
+            raise Unsupported(f"{module}:{cls}.{fn} not found")
         for n in self.tree(module).body:
             if cls is None and isinstance(n, ast.FunctionDef) and n.name == fn: return n
             if isinstance(n, ast.ClassDef) and n.name == cls:
@@ -201,6 +206,14 @@ class Translator:
                 raise Unsupported(f"compare at {ty}")
             if type(op) not in m: raise Unsupported(f"cmp {ast.unparse(n)}")
             return (m[type(op)], BOOL)
+        if isinstance(n, ast.IfExp) and isinstance(n.body, ast.Subscript) and ast.unparse(n.body.slice) == "-1" \
+                and ast.unparse(n.test) == f"len({ast.unparse(n.body.value)}) > 0":
+            v, tv = self.tr(n.body.value, env)
+            if isinstance(tv, tuple) and tv[0] == "list":
+                d, td = self.tr(n.orelse, env)
+                if td == INTLIT and tv[1] == F: d, td = self.flit(d), F
+                self.need(td, tv[1])
+                return (f"(last {v} {d})", tv[1])
         if isinstance(n, ast.IfExp):
             c, tc = self.tr(n.test, env); self.need(tc, BOOL)
             a, ta = self.tr(n.body, env); b, tb = self.tr(n.orelse, env)
@@ -353,6 +366,12 @@ class Translator:
         if f.endswith(".model_copy") and not n.args and not n.keywords:
             v, tv = self.tr(n.func.value, env); self.need(tv, AGENT)
             return (f"(copy {v})", AGENT)
+        if f.endswith(".model_copy") and not n.args and len(n.keywords) == 1 and n.keywords[0].arg == "update" \
+                and isinstance(n.keywords[0].value, ast.Dict) and len(n.keywords[0].value.keys) == 1 \
+                and isinstance(n.keywords[0].value.keys[0], ast.Constant) and n.keywords[0].value.keys[0].value == "cost":
+            v, tv = self.tr(n.func.value, env); self.need(tv, AGENT)
+            e, te = self.tr(n.keywords[0].value.values[0], env); self.need(te, X)
+            return (f"(with_cost {v} {e})", AGENT)
         if f.endswith(".copy") and not n.args:
             v, tv = self.tr(n.func.value, env)
             if isinstance(tv, tuple) and tv[0] == "list": return (v, ("fresh",) + tv)
@@ -369,8 +388,7 @@ class Translator:
             call = ast.Call(func=n.args[0], args=list(n.args[1:]), keywords=[])
             return self.tr_call(call, env)
         if f in sp.attrs.get("calls", {}):
-            args = [self.tr(a, env) for a in n.args]
-            return sp.attrs["calls"][f](args)
+            return sp.attrs["calls"][f](lambda k: self.tr(n.args[k], env))
         if f.startswith("self.") and f"{sp.cls}::{f}" in self.by_call:
             f = f"{sp.cls}::{f}"
         if f in self.by_call:
@@ -468,6 +486,12 @@ class Translator:
                 return self.ret_wrap(*env[sp.state])
             t, ty = self.tr(st.value, env)
             if isinstance(ty, tuple) and ty and ty[0] == "fresh": ty = ty[1:]
+            rs = sp.attrs.get("return_states")
+            if rs:
+                if not (isinstance(ty, tuple) and ty[0] == "tuple"): raise Unsupported("return_states needs a tuple return")
+                extra = [env[x] for x in rs]
+                t = t[:-1] + ", " + ", ".join(e for e, _ in extra) + ")"
+                ty = ty + tuple(et for _, et in extra)
             return self.ret_wrap(t, ty)
         if isinstance(st, ast.Raise):
             if not sp.fallible: raise Unsupported("raise in total function")
